@@ -351,6 +351,23 @@ func Eq(a, b *Term) *Term {
 			return Eq(a.Args[0], Int(b.I-a.Args[1].I))
 		}
 	}
+	if a.S == SStr && (a.isOp("concat") || b.isOp("concat")) {
+		// cancellation: x ++ A == x ++ B  <=>  A == B (and symmetrically for suffixes)
+		aa, bb := strAtoms(a), strAtoms(b)
+		i := 0
+		for i < len(aa) && i < len(bb) && aa[i] == bb[i] {
+			i++
+		}
+		aa, bb = aa[i:], bb[i:]
+		j := 0
+		for j < len(aa) && j < len(bb) && aa[len(aa)-1-j] == bb[len(bb)-1-j] {
+			j++
+		}
+		aa, bb = aa[:len(aa)-j], bb[:len(bb)-j]
+		if i > 0 || j > 0 {
+			return Eq(Concat(aa...), Concat(bb...))
+		}
+	}
 	if a.S == SStr {
 		// concat vs literal: compare known literal prefix/suffix and lengths
 		if r, ok := strEqDecide(a, b); ok {
